@@ -1,5 +1,6 @@
 """C18 — script-number encoding is a bijection on minimal encodings."""
 import random
+import re
 from . import runlib as R
 
 
@@ -183,8 +184,20 @@ def run(ctx):
         el.append(exec_line(0, R.STD, b"\x51", [v, b"\x01"], b"", 0, ["OP_ADD"]))
         el.append(exec_line(0, R.STD, b"\x51", [b"\x01", v], b"", 0, ["OP_ADD"]))
         el.append(exec_line(3, R.STD, b"\x51", [b"", v, b"\x44" * 32], b"", 0, ["OP_CHECKSIGADD"], weight=1000))
+    # decimal literals typed into exec are numbers like the literals of a script, across the 32-bit boundary too
+    for v in (17, 127, 128, 32767, 32768, 2147483647, 2147483648, 2147483649, 4294967295, 4294967296, 99999999999, 549755813887, 9223372036854775807,
+              -17, -2147483647, -2147483648, -2147483649, -4294967296, -9223372036854775807):
+        el.append(exec_line(0, 0, b"\x51", [], b"", 0, [str(v)]))
+        el.append(exec_line(0, 0, b"\x51", [], b"", 0, [str(v), "OP_SIZE"]))
     ctx.compare("scriptnum-use-sites-exec", el, ctx.harness_sharded(el), ctx.driver_sharded(el, "model"), ctx.driver_sharded(el, "spec"), observable=canon16,
                 nontrivial=lambda c, im: "result=" in im)
+    for l, im in zip(el, ctx.harness_sharded(el)):
+        w = l.split(" ")
+        if w[-1].lstrip("-").isdigit():
+            want = R.scriptnum(int(w[-1])).hex()
+            m = re.search(r"result=OK after=([0-9a-f_,]*)\|", im)
+            if not m or m.group(1).split(",")[-1] != want:
+                ctx.violation(l, {"stream": "exec-literals", "impl": im[-200:], "expected_top": want, "why": "a decimal literal typed into exec is not pushed as that number"})
     ll = literal_lines(ctx)
     ctx.compare("decimal-literals", ll, ctx.harness_sharded(ll), ctx.driver_sharded(ll, "model"), ctx.driver_sharded(ll, "spec"))
     sw = sweep_lines(ctx)
